@@ -243,6 +243,19 @@ def conv(co: Codec, to, cn: Codec, tn, v):
         return [conv(co, to.item, cn, tn.item, x) for x in v]
     if isinstance(to, S) and isinstance(tn, S):
         return [conv(co, to.item, cn, tn.item, x) for x in v]
+    if isinstance(to, U) and isinstance(tn, U) and [repr(co.res(t)) for _, t in to.cases] != [repr(cn.res(t)) for _, t in tn.cases] \
+            and all(isinstance(co.res(t), P) for _, t in to.cases) and all(isinstance(cn.res(t), P) for _, t in tn.cases):
+        # types were added to / removed from the union (documented as partially compatible): a value keeps its *type*, whatever position that type has
+        # in the other version; a value whose type the other version does not have cannot be represented there (a runtime error: not evaluated)
+        if v is None:
+            if tn.nullable:
+                return None
+            raise OutOfRange()
+        told = co.res(to.cases[v[0]][1])
+        for j, (_, tj) in enumerate(tn.cases):
+            if repr(cn.res(tj)) == repr(told):
+                return (j, v[1])
+        raise OutOfRange()
     if isinstance(to, U) and isinstance(tn, U) and len(to.cases) == len(tn.cases) and to.nullable == tn.nullable:
         return None if v is None else (v[0], conv(co, to.cases[v[0]][1], cn, tn.cases[v[0]][1], v[1]))
     if isinstance(to, A) and isinstance(tn, A):
@@ -435,6 +448,7 @@ def run(ctx):
         ctx.sample(s)
     repo_models(ctx, home)
     fixed_width_record_scenarios(ctx, home)
+    union_case_scenarios(ctx, home)
     imported_record_scenario(ctx, home)
     numeric_conversion_scenario(ctx, home)
     cxx.prune_cache()
@@ -530,7 +544,31 @@ def fixed_width_record_scenarios(ctx, home):
             _evolve_pair(ctx, home, "two-equal-versions", "two listed versions with the same schema", "%s-%s-first" % (name, order[0][0]), old, new, write_labels=("v0", "v1"))
 
 
-def _evolve_pair(ctx, home, tag, what, name, old, new, write_labels=("v0",)):
+def union_case_scenarios(ctx, home):
+    """types added to / removed from unions of primitives (documented as partially compatible) at every place a union can stand - record field, vector
+    item, named alias as stream item, protocol step -, including the combinations that leave the surviving types at other positions: appended, prepended,
+    reordered and appended, swapped, removed. A value keeps its type in the other version."""
+    i32, u32, i64, st, f32t, bl = P("int32"), P("uint32"), P("int64"), P("string"), P("float32"), P("bool")
+
+    def mk(field, item, alias, step, nullable, versions, d):
+        u = lambda ts, nl=False: U(tuple((None, t) for t in ts), nl)
+        return Pkg("Evo", [Rec("Sample", [("id", i32), ("reading", u(field)), ("tags", V(u(item)))]), Al("Event", u(alias)),
+                           Proto("Evo", [("samples", S(N("Sample"))), ("events", S(N("Event"))), ("last", u(step)), ("maybe", u(nullable, True)), ("end", i32)])], [], versions, d)
+    cases = {
+        "appended": (([i32, u32], [st, i64], [st, i64], [i64, st], [i32, st]), ([i32, u32, st], [st, i64, bl], [st, i64, f32t], [i64, st, f32t], [i32, st, f32t])),
+        "reordered-and-appended": (([i32, u32], [st, i64], [st, i64], [i64, st], [i32, st]), ([u32, i32, st], [i64, st, bl], [i64, st, f32t], [st, i64, f32t], [st, i32, f32t])),
+        "swapped": (([i32, u32], [st, i64], [st, i64], [i64, st], [i32, st]), ([u32, i32], [i64, st], [i64, st], [st, i64], [st, i32])),
+        "prepended": (([i32, u32], [st, i64], [st, i64], [i64, st], [i32, st]), ([st, i32, u32], [bl, st, i64], [f32t, st, i64], [f32t, i64, st], [f32t, i32, st])),
+        "removed-last": (([i32, u32, st], [st, i64, bl], [st, i64, f32t], [i64, st, f32t], [i32, st, f32t]), ([i32, u32], [st, i64], [st, i64], [i64, st], [i32, st])),
+        "removed-first-and-swapped": (([st, i32, u32], [bl, st, i64], [f32t, st, i64], [f32t, i64, st], [f32t, i32, st]), ([u32, i32], [i64, st], [i64, st], [st, i64], [st, i32])),
+    }
+    for name, (o, n) in cases.items():
+        old = mk(*o, [], "v0")
+        new = mk(*n, [("v0", old)], "v1")
+        _evolve_pair(ctx, home, "union-cases", "types added to / removed from unions", name, old, new, value_sets=8)
+
+
+def _evolve_pair(ctx, home, tag, what, name, old, new, write_labels=("v0",), value_sets=3):
     """generates `new` (which lists `old` as v0) and `old` alone, reads v0 streams with the newest reader (batch capacities 1 and 4) and writes v0
     with the newest writer; values against the documented conversion"""
     if True:
@@ -556,8 +594,8 @@ def _evolve_pair(ctx, home, tag, what, name, old, new, write_labels=("v0",)):
         co, cn = Codec(old), Codec(new)
         po, pn = old.find("Evo"), new.find("Evo")
         bad = False
-        for k in range(3):
-            vo = values.ValueGen(co, rng("C05fw", tag, name, k), quiet_nan_only=True, max_len=5).steps(po, stream_len=[1, 3, 6][k])
+        for k in range(value_sets):
+            vo = values.ValueGen(co, rng("C05fw", tag, name, k), quiet_nan_only=True, max_len=5).steps(po, stream_len=[1, 3, 6][k % 3])
             try:
                 want = conv_protocol(co, po, cn, pn, vo)
             except OutOfRange:
@@ -569,7 +607,7 @@ def _evolve_pair(ctx, home, tag, what, name, old, new, write_labels=("v0",)):
                 ctx.count(tag + ".read-old")
                 if not judge(ctx, cn, pn, want, pr, sch_new, what + ", %s: v0 stream read by the newest reader (batch capacity %s)" % (name, bufs or 1), {"case_dir": base}, "read-old"):
                     bad = True
-            vn = values.ValueGen(cn, rng("C05fww", tag, name, k), quiet_nan_only=True, max_len=5).steps(pn, stream_len=[1, 3, 6][k])
+            vn = values.ValueGen(cn, rng("C05fww", tag, name, k), quiet_nan_only=True, max_len=5).steps(pn, stream_len=[1, 3, 6][k % 3])
             try:
                 want_o = [conv_protocol(cn, pn, co, po, vn)]
             except OutOfRange:
